@@ -39,6 +39,15 @@ CHECKS = {
         'the real compile.generate (equal vf.hash(), different text = violation). Freshness: generator output today vs shipped assemblers.pyx/genericasm.pxi (byte comparison).',
    note='Trusted: ideal (collision-free) hash model, z3, token templates (25 token kinds x contexts); freshness comparison is textual, not solver-decided.',
    technique='non-interference query over real hashing code with injective hash model (z3) + ground truth via real code generator'),
+ 'C10': dict(
+   category='other', design_ref='4/C10',
+   text='Bounded symbolic verification of RestrictedLinearSystem (source exec\'d with a dense-object model of scipy.sparse): matrix, right-hand side, '
+        'prescribed values and the free solution are symbolic reals, the constrained index sequence is a symbolic injective sequence without ordering '
+        'assumption (each order is a forked path); z3 proves that complete() takes the prescribed values, that a solution of the restricted system solves '
+        'every non-eliminated equation, and that restrict/extend/restrict_matrix/restrict_rhs are consistent; slice_indices/boundary_dofs/boundary_cells/'
+        'combine_bcs are checked for all shapes <= 3x3x3, indices, flips and bdspecs.',
+   note='Trusted: z3, symsparse stub, reals for doubles. Index inputs are decided by exhaustive forking within the bound (n<=4/5), matrix/vector data by the solver.',
+   technique='symbolic execution of real Python source + z3 (LRA/NRA), index order by solver-driven forking'),
 }
 
 NA = {
